@@ -35,10 +35,10 @@ theorem nodupB_iff (xs : List Nat) : nodupB xs = true ↔ xs.Nodup := by
   | nil => simp [nodupB]
   | cons x r ih => simp [nodupB, ih, List.nodup_cons]
 
-/-- E2: the parent of a new group is in the same work or in the graph. -/
+/-- E2: the parent of a new group is in the same work or was introduced earlier. -/
 theorem workOk_parent (σ : Static) (e : EnvSt) (q : WQ) (pr : Option Nat) (w : Work)
     (h : workOk σ e q pr w = true) :
-    ∀ g ∈ w.groups, ∀ p, σ.parent g = some p → p ∈ w.groups ∨ hasNode q p := by
+    ∀ g ∈ w.groups, ∀ p, σ.parent g = some p → p ∈ w.groups ∨ p ∈ e.introG := by
   unfold workOk at h
   simp only [Bool.and_eq_true, List.all_eq_true, Bool.not_eq_true', nodupB_iff] at h
   obtain ⟨⟨_, h7⟩, _⟩ := h
@@ -46,12 +46,7 @@ theorem workOk_parent (σ : Static) (e : EnvSt) (q : WQ) (pr : Option Nat) (w : 
   have := h7 g hg
   rw [hp] at this
   simp only [Bool.and_eq_true, decide_eq_true_eq, Bool.or_eq_true, List.contains_iff_mem] at this
-  rcases this.2 with h | h
-  · exact Or.inl h
-  · right
-    cases hl : alookup q.groupNodes p with
-    | none => rw [hl] at h; simp at h
-    | some n => exact ⟨n, hl⟩
+  exact this.2
 
 theorem workOk_of (σ : Static) (e : EnvSt) (q : WQ) (pr : Option Nat) (w : Work)
     (h : workOk σ e q pr w = true) : WorkOk σ e q w := by
